@@ -188,7 +188,10 @@ func (n *ThreadedNewsYAML) DeleteArticle(newsPath []string, articleID uint32, _ 
 
 	catName := newsPath[len(newsPath)-1]
 
-	cat := cats[catName]
+	cat, ok := cats[catName]
+	if !ok {
+		return fmt.Errorf("news category not found")
+	}
 	delete(cat.Articles, articleID)
 	cats[catName] = cat
 
